@@ -14,8 +14,10 @@ CONSTANTS
   MoodSet,       \* moods offered to `close` (ABSENT = not sent)
   CVs,           \* client_version tokens offered to `bind` (ABSENT = not sent)
   Malformed,     \* also generate commands with missing fields / bad types
+  ClaimNames,    \* nameplates offered to claim / release
+  PickSet,       \* outcomes of allocate's random choice that are explored
   AdvanceSteps,  \* clock increments
-  MaxTime, MaxMsgs, MaxUsage,   \* state constraint
+  MaxTime, MaxMsgs, MaxUsage, MaxDepth,  \* state constraint
   WithStop, WithCrash, WithCrashIn, WithFault, WithTime
 
 VARIABLES db, udb, now,            \* observable state
@@ -36,8 +38,8 @@ MsgsFor(S) ==
   UNION {
     {[M("bind") EXCEPT !.appid = a, !.side = s, !.cv = v] : a \in Opt(Apps), s \in Opt(Sides), v \in CVs},
     {M("list"), M("allocate")},
-    {[M("claim") EXCEPT !.nameplate = n] : n \in Opt(Class1 \cup OtherNames)},
-    {[M("release") EXCEPT !.nameplate = n] : n \in Class1 \cup OtherNames \cup {ABSENT}},
+    {[M("claim") EXCEPT !.nameplate = n] : n \in Opt(ClaimNames)},
+    {[M("release") EXCEPT !.nameplate = n] : n \in ClaimNames \cup {ABSENT}},
     {[M("open") EXCEPT !.mailbox = i] : i \in Opt(KnownMbox(S))},
     {[M("add") EXCEPT !.phase = x.phase, !.body = x.body] : x \in AddMsgs},
     IF Malformed THEN {[M("add") EXCEPT !.phase = "p1"], [M("add") EXCEPT !.body = "b1"]} ELSE {},
@@ -50,7 +52,7 @@ WithId(M) == {[m EXCEPT !.id = i] : m \in M, i \in MsgIds}
 CmdEvents(S, c, m, kind, ats) ==
   {[Ev0 EXCEPT !.k = kind, !.c = c, !.m = m, !.at = k,
                !.gid = IF NeedsGen(S, c, m) THEN NextGen(S) ELSE ABSENT, !.pick = p]
-   : p \in (IF NeedsPick(S, c, m) THEN AllocChoices(S.db, S.conn[c].app) ELSE {ABSENT}),
+   : p \in (IF NeedsPick(S, c, m) THEN AllocChoices(S.db, S.conn[c].app) \cap PickSet ELSE {ABSENT}),
      k \in ats}
 
 Events(S) ==
@@ -127,4 +129,5 @@ Constr ==
   /\ now <= MaxTime
   /\ Len(db.msgs) <= MaxMsgs
   /\ Len(udb.unp) + Len(udb.umb) + Len(udb.ucv) <= MaxUsage
+  /\ TLCGet("level") <= MaxDepth
 =============================================================================
